@@ -1,7 +1,7 @@
 #!/bin/sh
 # development helper: confirm a sub-agent's seeded change in ITS scratch worktree: (1) patch is applied and the project's
 # tests pass, (2) the demonstration fails with the change, (3) passes without it.   usage: tools/confirm_seed.sh C07
-id=$1; WT=/tmp/seed-$id; OUT=/tmp/seed-$id-out; LOG=/var/tmp/nv-mut/confirm-$id.log
+id=$1; PFX=${PFX:-seed}; WT=/tmp/$PFX-$id; OUT=/tmp/$PFX-$id-out; LOG=/var/tmp/nv-mut/confirm-$PFX-$id.log
 exec > $LOG 2>&1
 cd $WT || exit 2
 git checkout -q -- src lib 2>/dev/null
